@@ -167,6 +167,10 @@ func opEnc(a []string) string {
 		return "err " + errClass(err)
 	}
 	sh := mkShards(d, p, size, seed)
+	// parity buffers hold stale bytes before the call: Encode must overwrite, never accumulate
+	for i := d; i < d+p; i++ {
+		copy(sh[i], fill(seed^0x5bd1e995, 4000+i, size))
+	}
 	if err := enc.Encode(sh); err != nil {
 		return "err " + errClass(err)
 	}
